@@ -265,3 +265,21 @@ Definition r2a_table (W DW KW : Z) (snaps : list (Z * Z * Z * Z * Z * Z * Z * Z)
          r2a_snapshot s' ++ r2a_obs W KW s' ++
          r2a_ref_obs W (r2a_ref_step DW {| rb_tvalid := zb tv; rb_tdata := td; rb_sent := zb se; rb_active := zb ac |} (mkB i)))
        inputs) snaps.
+
+(* ------------------------------------------------------------------ composition: Reg2Axi -> one stream -> Axi2Reg *)
+(* one cycle of the two gate-level adapters sharing a stream: the consumer's READY and the producer's VALID/DATA of the
+   current state are what the other side samples at the edge.  Inputs (start_p, start_c, reset, done, load_outs, reg_in);
+   reset and done are shared, each kernel has its own start.  Outputs: Reg2Axi's six, then Axi2Reg's four. *)
+Definition link_step (W Q DW : Z) (s : r2a_st * a2r_st) (t : Z * Z * Z * Z * Z * Z) : r2a_st * a2r_st :=
+  let '(sp, sc, r, d, l, x) := t in
+  let '(sb, sa) := s in
+  let tready := a2r_tready sa in let tvalid := r2a_tvalid sb in let tdata := r2a_tdata sb in
+  (r2a_step DW sb (mkB (sp, r, d, l, tready, x)), a2r_step Q sa (mkA (sc, r, d, tvalid, tdata))).
+Fixpoint link_trace_from (W Q DW KW : Z) (s : r2a_st * a2r_st) (ins : list (Z * Z * Z * Z * Z * Z)) : list (list Z) :=
+  match ins with
+  | [] => []
+  | i :: rest => let s' := link_step W Q DW s i in (r2a_obs W KW (fst s') ++ a2r_obs (snd s')) :: link_trace_from W Q DW KW s' rest
+  end.
+Definition link_trace (W Q DW KW : Z) ins := link_trace_from W Q DW KW (r2a_st0, a2r_st0) ins.
+(* the observations at the given cycle indices only (a test bench that advances several cycles per clk() call) *)
+Definition pick {A} (l : list A) (d : A) (idx : list nat) : list A := map (fun k => nth k l d) idx.
